@@ -69,8 +69,13 @@ PieceViolsScaled(L, e, i) ==
     PieceViolsCommon(L, e, i)
     \cup UNION {TagSet(BlkTag(L, i, BlocksViolIv(L, i, e.blk[k][i + 1], e.bss[k]), e.secs[i + 1], e.bss[k], e.blk[k][i + 1]),
                        i, e.bss[k]) : k \in 1 .. Len(e.bss)}
-    \cup UNION {T(e.rds[i + 1][r][3] = ExpRLE(L, Lo(L, i) + e.rds[i + 1][r][1], Lo(L, i) + e.rds[i + 1][r][1] + e.rds[i + 1][r][2]),
-                  "C02.read", i, e.rds[i + 1][r][1]) : r \in 1 .. Len(e.rds[i + 1])}
+    \* (the driver derives its read ranges from the piece length the code reports; a range outside the real piece
+    \*  is not judged here, the wrong piece length already is)
+    \cup UNION {LET off == e.rds[i + 1][r][1]
+                   n   == e.rds[i + 1][r][2]
+               IN  IF off < 0 \/ n < 0 \/ off + n > PieceLen(L, i) THEN {}
+                   ELSE T(e.rds[i + 1][r][3] = ExpRLE(L, Lo(L, i) + off, Lo(L, i) + off + n), "C02.read", i, off)
+                 : r \in 1 .. Len(e.rds[i + 1])}
 
 LayoutViols(e) ==
     LET L  == LayOf(e)
